@@ -534,9 +534,22 @@ class _ExtendedTypeFetcher(Thread):
 
         self.request_queue = Queue()
         self._cf.add_port_callback(CRTPPort.PARAM, self._new_packet_cb)
+        self._cf.disconnected.add_callback(self._disconnected)
         self._should_close = False
         self._req_param = -1
         self._count = -1
+
+    def _disconnected(self, uri):
+        """The connection is gone, a new fetcher is created for the next one"""
+        self._cf.remove_port_callback(CRTPPort.PARAM, self._new_packet_cb)
+        try:
+            self._cf.disconnected.remove_callback(self._disconnected)
+        except ValueError:
+            # Already removed by a concurrent disconnect notification
+            pass
+        self._done_callback = None
+        self._req_param = -1
+        self._close()
 
     def _new_packet_cb(self, pk):
         """Callback for newly arrived packets"""
